@@ -261,6 +261,39 @@ func dblc(rng *rand.Rand, G float64, U int64) [][]ipt {
 	return rings
 }
 
+// dblc2: two of dblc's pairs (a thick C-shaped hole with a thin one hugging it) side by side in one shell: two shell/hole cancellations on one level
+func dblc2(rng *rand.Rand, G float64, U int64) [][]ipt {
+	if U < 8 || G < 24 {
+		return nil
+	}
+	e := U / 8
+	span, wall := 48*e, 16*e
+	y0 := (12 + 8*rng.Int63n(2)) * e
+	y1 := y0 + span
+	var rings [][]ipt
+	x0 := y0
+	for n := 0; n < 2; n++ {
+		x1 := x0 + span
+		i0x, i1x, i0y, i1y := x0+wall, x1-wall, y0+wall, y1-wall
+		k := (i0x/e+8)/8 + rng.Int63n(max64(1, (i1x-i0x)/e/8-1))
+		xa, xb := (8*k+2+rng.Int63n(2))*e, (8*k+5+rng.Int63n(2))*e
+		if xa <= i0x || xb >= i1x {
+			return nil
+		}
+		d1, d2 := (1+rng.Int63n(2))*e, (3+rng.Int63n(2))*e
+		thick := []ipt{{x0, y1}, {x0, y0}, {x1, y0}, {x1, y1}, {xb, y1}, {xb, i1y}, {i1x, i1y}, {i1x, i0y}, {i0x, i0y}, {i0x, i1y}, {xa, i1y}, {xa, y1}}
+		thin := []ipt{{xb, y1 + d1}, {xb, y1 + d2}, {x1 + d2, y1 + d2}, {x1 + d2, y0 - d2}, {x0 - d2, y0 - d2}, {x0 - d2, y1 + d2}, {xa, y1 + d2}, {xa, y1 + d1},
+			{x0 - d1, y1 + d1}, {x0 - d1, y0 - d1}, {x1 + d1, y0 - d1}, {x1 + d1, y1 + d1}}
+		rings = append(rings, thick, thin)
+		x0 = x1 + 24*e
+	}
+	if x0+8*e >= int64(G)*U || y1+24*e >= int64(G)*U {
+		return nil
+	}
+	shell := []ipt{{y0 - 8*e, y1 + 16*e}, {y0 - 8*e, y0 - 8*e}, {x0, y0 - 8*e}, {x0, y1 + 16*e}}
+	return append([][]ipt{shell}, rings...)
+}
+
 // edgehole: a rectangle with a small hole within a pixel of one of its sides or corners (top/right ones included)
 // manyholes: a rectangle with 66 small triangular holes and then three hourglass-shaped holes whose waist lies inside one pixel (they pinch when
 // snapped and must be split in two): rings with indexes beyond 64, where per-ring bookkeeping packed into a machine word runs out
@@ -447,6 +480,11 @@ func genValid(rng *rand.Rand, family string, G float64, U int64, maxv int) (res 
 			rings = chole(rng, G, U)
 		case "dblc":
 			rings = dblc(rng, G, U)
+			if rng.Intn(3) == 0 {
+				if r2 := dblc2(rng, G, U); r2 != nil {
+					rings = r2
+				}
+			}
 		default:
 			rings = edgehole(rng, G, U)
 		}
@@ -716,7 +754,7 @@ func initWindows() {
 		{gs: wm, baseX: 550000, baseY: 6800000, G: 24, maxID: 18, minID: 16, weight: 2, far: true},
 		{gs: wm, baseX: -0.25, baseY: -0.2, G: 24, maxID: 18, minID: 16, weight: 1},       // astride the centre lines of the extent (root quadrants; the extent does not divide evenly here)
 		{gs: wm, baseX: 15550000, baseY: 4250000, G: 24, maxID: 20, minID: 19, weight: 1}, // levels 31 and 32, far from the origin
-		{gs: wm, baseX: -8240000, baseY: -4120000, G: 24, maxID: 18, minID: 16, weight: 1}, // negative ordinates beyond 2^53 units of 1e-10 (the south-west)
+		{gs: wm, baseX: -17800000, baseY: -4120000, G: 24, maxID: 18, minID: 16, weight: 1}, // negative ordinates beyond 2^53 units of 1e-10, |x| beyond 2^24 (the south-west, near the antimeridian)
 		{gs: laea, baseX: 4000000, baseY: 3200000, G: 24, maxID: 14, minID: 12, weight: 2},
 	}
 }
